@@ -111,6 +111,9 @@ def make_recording(rng):
             long_burst = False
     uc = rng.choice((None, None, "mix", "avg", 0, channels - 1, -1)) if channels > 1 else rng.choice((None, None, 0))
     data, _ = A.synth(random.Random(rng.getrandbits(32)), pattern, width, channels, block, eff_thr, uc, margin=1.0)
+    if rng.random() < 0.12 and len(data) > 200:
+        # headerless audio whose first bytes happen to be a complete wav header: still the audio the options describe
+        data = A.wav_image(random.Random(rng.getrandbits(32)), len(data))[:44] + data[44:]
     return dict(rate=rate, width=width, channels=channels, a=a, e=thr, uc=uc, data=data)
 
 
